@@ -52,12 +52,17 @@ func todGrid() []int {
 }
 
 func TestC15DecodeTime(t *testing.T) {
-	rec := obs.NewRecorder("C15", "decode_time", "parseDVBTime: all 50457 MJD values 15079..65535 x a grid of times of day, plus all 86400 times of day on three dates; oracle = integer calendar arithmetic (distinct by construction)")
+	rec := obs.NewRecorder("C15", "decode_time", "parseDVBTime: all 50457 MJD values 15079..65535 x a grid of times of day, each decoded from a fresh slice and from one buffer reused for every call, plus all 86400 times of day on four dates; oracle = integer calendar arithmetic (distinct by construction)")
 	defer rec.Flush()
 	grid := todGrid()
-	one := func(mjd, sod int) string {
+	// scratch: the caller's buffer when it is reused from one call to the next (nil = a fresh slice for every call)
+	oneIn := func(mjd, sod int, scratch []byte) string {
 		h, mi, s := sod/3600, sod/60%60, sod%60
 		b := []byte{byte(mjd >> 8), byte(mjd), ref.BCD2(h), ref.BCD2(mi), ref.BCD2(s)}
+		if scratch != nil {
+			copy(scratch, b)
+			b = scratch[:5]
+		}
 		got, err := astits.VerifParseDVBTime(b)
 		if err != nil {
 			return fmt.Sprintf("parseDVBTime(%x) error %v", b, err)
@@ -72,6 +77,7 @@ func TestC15DecodeTime(t *testing.T) {
 		}
 		return ""
 	}
+	one := func(mjd, sod int) string { return oneIn(mjd, sod, nil) }
 	if s := parallelRange(mjdMax-mjdMin+1, func(lo, hi uint64) string {
 		for i := lo; i < hi; i++ {
 			for _, sod := range grid {
@@ -84,7 +90,21 @@ func TestC15DecodeTime(t *testing.T) {
 	}); s != "" {
 		t.Fatal(s)
 	}
-	rec.Enumerated(int64((mjdMax - mjdMin + 1) * len(grid)))
+	// the same sweep with one buffer per worker that is overwritten for every call, days descending
+	if s := parallelRange(mjdMax-mjdMin+1, func(lo, hi uint64) string {
+		scratch := make([]byte, 5)
+		for i := hi; i > lo; i-- {
+			for _, sod := range grid[:4] {
+				if s := oneIn(mjdMin+int(i-1), sod, scratch); s != "" {
+					return s + " (decoded from a buffer the caller reuses for every call)"
+				}
+			}
+		}
+		return ""
+	}); s != "" {
+		t.Fatal(s)
+	}
+	rec.Enumerated(int64((mjdMax - mjdMin + 1) * (len(grid) + 4)))
 	for _, mjd := range []int{mjdMin, 49273, 51603, mjdMax} {
 		for sod := 0; sod < 86400; sod++ {
 			if s := one(mjd, sod); s != "" {
